@@ -95,6 +95,8 @@ def oracles(rec):
             maxlive = max(maxlive, live)
         elif e["k"] in ("WExit", "WDie"):
             live -= 1
+    if cfg["n"] == 0 and N != max(cfg["gomaxprocs"], 4):
+        bad("C03", "default concurrency is %d under GOMAXPROCS=%d, expected max(GOMAXPROCS,4)" % (N, cfg["gomaxprocs"]))
     if maxlive > N + 1:
         bad("C03", "%d worker goroutines alive at once with Concurrency %d" % (maxlive, N))
     # ---- C07 / C08 / C09 (results)
@@ -325,3 +327,15 @@ def apply(chk, pid, which="core"):
         chk.fail_no_input("observed events could not be linearised: %s" % s["builder_problems"][0]["problems"][:2],
                           {"theorem": "trace correspondence (linearisation)", "detail": s["builder_problems"][:3]})
     return s
+
+
+ASSUMPTIONS = {
+    "*": [
+        "Go runtime modelled, not verified: channel semantics (enqueuec cap 1, readyc unbuffered = one action, donec cap N received in any order), select picks any ready arm, goroutine fairness",
+        "context = monotone cancelled flag; the worker's ctx.Err()+run is one atomic model action (a cancel between the test and the first instruction of the job is not represented)",
+        "a worker that dies by Goexit and its replacement are one slot of the model (the transient N+1-th goroutine is not represented)",
+        "errors are atoms: a user error that is itself a multierr aggregate is not modelled",
+    ],
+    "C19": ["every emitted State is compared with the model's counters at that point of the loop replay (exact, not sampled)"],
+    "C03": ["default limit checked by observing Config{}.New() under GOMAXPROCS in {1,2,4,16}"],
+}
